@@ -1,6 +1,8 @@
 import Psa.AdmitProps
 import Psa.AdmitCases
 import Psa.Deps
+import Psa.Examples
+import Psa.Namespace
 /-! # C07 — dependency failures fail closed for pods and open for advisory paths
 Faults are inputs of the model (`w.getNs`, `r.obj`, `r.old`, `w.listPods`, `w.expireAfter`); every theorem quantifies over
 every placement of them. -/
@@ -132,6 +134,23 @@ theorem C07_labels_evaluated (pv) (cfg : Config) (w : World Ev) (r : Request) (l
   · exact evaluateObj_allowed cfg w.ev _ _ p hrc
   · exact evaluateObj_calls_enforce cfg w.ev _ _ p hrc
 
+/-- **A failed listing is reported, not hidden, and blocks nothing.** Whenever a namespace update calls the pod lister and the
+    listing fails, the answer is: allowed, exactly the one warning "failed to list pods …", no pod evaluated — for every
+    configuration, evaluator, remaining deadline and label pair that leads to a dry run. -/
+theorem C07_ns_list_failure (pv) (cfg : Config) (lim : Limits) (w : World Ev) (r : Request) (e : Unit)
+    (hcalls : (validateNamespace pv cfg lim w r).2.listCalls = 1) (hlist : w.listPods = .error e) :
+    (validateNamespace pv cfg lim w r).1.allowed = true ∧ (validateNamespace pv cfg lim w r).1.warnings = [.listFailed] ∧
+    (validateNamespace pv cfg lim w r).2.evalCalls = [] := by
+  revert hcalls
+  unfold validateNamespace
+  repeat' split
+  all_goals (intro hcalls; first | (simp at hcalls; done) | skip)
+  all_goals simp_all
+
+/-- non-vacuity: an update to enforce=restricted whose listing fails does call the lister once -/
+example : (validateNamespace parseVersion Ex.cfg Ex.lim { Ex.world [] with listPods := .error () } (Ex.nsUpdate Ex.restrictedLabels [])).2.listCalls = 1 := by
+  decide +kernel
+
 /-! ## The dependency adapters (admission/namespace.go, admission/pods.go) -/
 open PSA.Deps in
 /-- **The namespace getter.** It answers "found" exactly when the cache has the namespace, or the cache is absent or says
@@ -211,6 +230,7 @@ example : (getNamespace (some Lookup.failed) (Lookup.found (1 : Nat))) = { resul
 #print axioms C07_ns_bad_body
 #print axioms C07_ns_never_blocked_by_pods
 #print axioms C07_labels_evaluated
+#print axioms C07_ns_list_failure
 #print axioms C07_getter_found_iff
 #print axioms C07_getter_asks_client_iff
 #print axioms C07_pod_getter_closed
